@@ -128,7 +128,7 @@ def checkGroup (r : Run) (grp : List (List String)) : Option Bool :=
               if wins.isEmpty then some (agree (step rngNext (r.m, r.rng) (.uplink data port conf none none none 0 0))) else none
             | .error _ => none
           | _, _, _ => none
-        | ["otaa"] =>
+        | "otaa" :: _ =>
           match macJoinOtaa rngNext r.m r.rng with
           | .ok (o, _, _) =>
             match procedure wins (outs.drop 1) with
